@@ -2,6 +2,7 @@ import GoMailModel.Mime.Body
 import GoMailModel.Mime.Fold
 import GoMailModel.Proofs.Wrap
 import GoMailModel.Proofs.Fold
+import GoMailModel.Proofs.QPLines
 import GoMailModel.Generated.Const
 /-
   C18 — Generated output obeys Internet-message line discipline.
@@ -43,6 +44,20 @@ theorem b64_body_lines (content : Bytes) :
     rw [← h2]
     exact List.mem_flatten.mpr ⟨l, hl, hc⟩
 
+/-- Every quoted-printable body the writer emits (also for parts with an unknown encoding label):
+    whole lines of at most 76 bytes free of CR and LF, each terminated by CRLF, followed by a last
+    unterminated line of at most 75 such bytes — for EVERY content, whatever its line lengths,
+    trailing blanks or stray CR / LF bytes. -/
+theorem qp_body_lines (content : Bytes) :
+    ∃ (ls : List Bytes) (last : Bytes),
+      Body.encodeBody .qp content = (ls.map (· ++ [13, 10])).flatten ++ last ∧
+      Body.encodeBody .other content = Body.encodeBody .qp content ∧
+      (∀ l ∈ ls, l.length ≤ 76 ∧ ∀ c ∈ l, c ≠ 13 ∧ c ≠ 10) ∧
+      last.length ≤ 75 ∧ ∀ c ∈ last, c ≠ 13 ∧ c ≠ 10 := by
+  obtain ⟨o, l, e, ho, hc, hn⟩ := QP.encodeBytes_lines content
+  obtain ⟨ls, eo, hall⟩ := ho.lines
+  exact ⟨ls, l, by rw [← eo]; exact e, rfl, hall, hn, hc⟩
+
 /-- The encoded body does not depend on how the content producer chunks its writes. -/
 theorem body_chunk_independent (e : Body.CTE) (chunks : List Bytes) :
     Body.encodeChunks e chunks = Body.encodeBody e chunks.flatten := rfl
@@ -62,5 +77,9 @@ theorem header_fold (key : Bytes) (values : List Bytes) (hk : Fold.NoSp key)
 /-- non-vacuity: a 100-byte content really produces two lines -/
 example : wrap76 (List.replicate 80 65) = List.replicate 76 65 ++ crlf ++ (List.replicate 4 65 ++ crlf) := by
   unfold wrap76; simp; unfold wrap76; simp
+
+/-- non-vacuity: 100 literal bytes give a soft-broken 76-byte line and a rest -/
+example : QP.encodeBytes (List.replicate 100 65) =
+    List.replicate 75 65 ++ [61, 13, 10] ++ List.replicate 25 65 := by decide +kernel
 
 end GoMail.Props.C18
